@@ -119,3 +119,46 @@ pub struct W5ReloadStateIsPrivate;
 /// async fn touch(p: &anytls_rs::client::SessionPool) -> usize { p.idle_count().await }
 /// ```
 pub struct W6IdleMapIsPrivate;
+
+/// W7 — a parsed padding scheme is immutable from outside (E0616): the md5 that is announced, the raw bytes that are
+/// pushed and the parsed lines cannot be made to disagree after `PaddingFactory::new` (supports C19 R19.7, C05 R05.2).
+/// ```compile_fail,E0616
+/// fn touch(f: &mut anytls_rs::padding::PaddingFactory) { f.stop = 0; }
+/// ```
+/// twin:
+/// ```
+/// fn touch(f: &anytls_rs::padding::PaddingFactory) -> u32 { f.stop() }
+/// ```
+pub struct W7SchemeIsImmutable;
+
+/// W7b — the cell holding the pushed scheme is not nameable outside its module (E0603): `update_default` is the only
+/// writer (supports C19 R19.1 and the effect table's `static PUSHED_FACTORY` entries).
+/// ```compile_fail,E0603
+/// fn touch() { let _ = &anytls_rs::padding::factory::PUSHED_FACTORY; }
+/// ```
+/// twin:
+/// ```
+/// fn touch() { let _ = anytls_rs::padding::PaddingFactory::pushed(); }
+/// ```
+pub struct W7bPushedCellIsPrivate;
+
+/// W8 — the session's current scheme is private (E0616): only the UpdatePaddingScheme arm replaces it (supports C19 R19.4/R19.8).
+/// ```compile_fail,E0616
+/// fn touch(s: &anytls_rs::session::Session) { let _ = &s.padding; }
+/// ```
+/// twin:
+/// ```
+/// fn touch(s: &anytls_rs::session::Session) -> bool { s.is_closed() }
+/// ```
+pub struct W8SessionSchemeIsPrivate;
+
+/// W9 — the inbound queue end and the leftover buffer of a stream reader are private (E0616): nothing outside
+/// `StreamReader::read` can consume, reorder or re-inject stream bytes (supports C01 R01.6/R01.7, C08 R08.3).
+/// ```compile_fail,E0616
+/// fn touch(r: &mut anytls_rs::session::StreamReader) { r.reader_buffer.clear(); }
+/// ```
+/// twin:
+/// ```
+/// fn touch(r: &anytls_rs::session::StreamReader) -> usize { r.buffer_len() }
+/// ```
+pub struct W9ReaderStateIsPrivate;
